@@ -74,6 +74,12 @@ class Const:
 
 
 @dataclass
+class Tup:
+    """A tuple of typed components (e.g. the shape of an n-d array that is otherwise opaque)."""
+    items: list = field(default_factory=list)
+
+
+@dataclass
 class Opaque:
     pass
 
